@@ -6,7 +6,7 @@ MODULES = ["Percival.Properties.C08"]
 
 
 def components(ctx):
-    return [H.comp_mal(ctx), H.comp_wf(ctx)]
+    return [H.comp_mal(ctx), H.comp_wf(ctx, scale=0.5)]   # C09 runs the well-formed stream at full size
 
 
 def check(ctx):
